@@ -63,7 +63,12 @@ func init() {
 					}
 					base = mm
 				}
-				r := newE2ERig(newEvManager(base), nil, nil)
+				var bypass [][]byte
+				if c.P("bypass", "0") == "1" {
+					// user 0 is a bypass UID (no database record consulted, no cap): the server without a database
+					bypass = [][]byte{uidOf(0)}
+				}
+				r := newE2ERig(newEvManager(base), bypass, nil)
 				rig = r
 				// replyfault=first: the server cannot write its reply on the first of the connections that arrive
 				// together (the client has gone); no connection that ever belonged to a session fails
@@ -275,6 +280,10 @@ func init() {
 			{Scenario: "srv.join", Params: vx.P("conns", "0.1,0.1,0.1", "cap", "2", "pre", "0.7", "replyfault", "first"), Bound: b(2, 3), Weight: 7},
 			{Scenario: "srv.join", Params: vx.P("conns", "0.1,1.1", "cap", "1", "mem", "1"), Bound: b(1, 2), Weight: 6},
 			{Scenario: "srv.join", Params: vx.P("conns", "0.1,0.1", "cap", "1", "mem", "1"), Bound: b(1, 2), Weight: 6},
+			// bypass UIDs (servers without a user database): the same session id still means one session, one key
+			{Scenario: "srv.join", Params: vx.P("conns", "0.1,0.1", "cap", "9", "bypass", "1"), Bound: b(2, 3), Weight: 6},
+			{Scenario: "srv.join", Params: vx.P("conns", "0.1,0.1,0.2", "cap", "9", "bypass", "1"), Bound: b(1, 2), Weight: 7},
+			{Scenario: "srv.join", Params: vx.P("conns", "0.2,0.2", "pre", "0.1", "cap", "9", "bypass", "1", "closer", "0.1"), Bound: b(1, 2), Weight: 7},
 			// through two listening ports
 			{Scenario: "srv.join", Params: vx.P("conns", "0.1,0.1", "cap", "1", "listeners", "2"), Bound: b(1, 2), Weight: 6},
 			{Scenario: "srv.join", Params: vx.P("conns", "0.1,0.2,0.3", "cap", "2", "listeners", "2"), Bound: b(1, 2), Weight: 7},
